@@ -9,11 +9,14 @@ META = {
                    'string table) equals what dr_read_dag reads field by field and then assumes by pointer arithmetic (T at the end of '
                    'the header, E = &T[n], S = &E[m], I = &S[1], C = &I[S->n]); the header length constant equals the length of the '
                    'header string (compile-time witness); (2) both construction pipelines (dr_make_pi_dag, dr_copy_pi_dag) enumerate '
-                   'edges, sort them and set the per-node edge ranges in that order, after the node table exists.',
+                   'edges, sort them and set the per-node edge ranges in that order, after the node table exists; (3) the shrinking copy rewrites '
+                   'a child range only when it is non-empty and as a difference of index-map entries; (4) the string-table append keeps '
+                   'head/tail/n consistent on every path and intern appends exactly when the string is new; (5) growable arrays copy '
+                   'with the element size they were allocated with and the replay queue ensures capacity before storing.',
     'not_decided': 'that offsets and edge endpoints inside a dumped DAG are in range, reachability of leaves, identity of the re-read '
                    'DAG, totals after shrinking: properties of run-time data',
     'assumptions': ['writer and reader run on the same ABI (the format stores raw structs)'],
-    'technique': 'static analysis: sibling layout agreement (ordered call/argument lists and affine pointer forms) + call-order dominance over LLVM IR, plus a compile-time witness',
+    'technique': 'static analysis: sibling layout agreement (ordered call/argument lists and affine pointer forms), call-order dominance, guard dominance (non-empty range), must-pass-through (list append) and allocation/copy granularity agreement over LLVM IR, plus a compile-time witness',
 }
 PI = 'dr_pi_dag.'
 
@@ -152,6 +155,209 @@ def run(ctx):
         ctx.ob('C19.2', name + ': node table built before the edges', bool(first) and all(f.dominates_f(x, cs[0][0]) for x in first),
                'edges are enumerated over an existing node table', loc=f.loc, detail=str([c.callee for c in first]))
     ctx.floor('C19.2', 12)
+    rule3_shrink(ctx, w)
+    rule4_strings(ctx, w)
+    rule5_growth(ctx)
+
+
+PN = 'dr_pi_dag_node.'
+
+
+def nonempty_range_guards(f, node_root):
+    """[(br, successor block on which begin < end holds)] for comparisons equivalent to
+    node.subgraphs_begin_offset < node.subgraphs_end_offset (any arrangement of the operands)"""
+    out = []
+    for ic in f.order:
+        if ic.op != 'icmp' or ic.pred not in ('slt', 'sgt', 'sle', 'sge', 'ult', 'ugt', 'ule', 'uge'):
+            continue
+        d = lib.affine_diff(f, ic.ops[0], ic.ops[1])
+        if len(d) != 2:
+            continue
+        lb = [k for k in lib.load_terms(f, d, PN + 'subgraphs_begin_offset') if f.strip(f.ap(f.insts[k].ops[0]).root) == f.strip(node_root)]
+        le = [k for k in lib.load_terms(f, d, PN + 'subgraphs_end_offset') if f.strip(f.ap(f.insts[k].ops[0]).root) == f.strip(node_root)]
+        if len(lb) != 1 or len(le) != 1 or d[lb[0]] + d[le[0]] != 0 or abs(d[lb[0]]) != 1:
+            continue
+        sign = d[lb[0]]            # lhs - rhs = sign * (begin - end)
+        pred = ic.pred[1:]
+        # lhs < rhs (strict) with sign +1 means begin < end on the true edge; lhs >= rhs with sign +1: on the false edge, ...
+        strict_lt = (pred == 'lt' and sign == 1) or (pred == 'gt' and sign == -1)
+        weak_ge = (pred == 'ge' and sign == 1) or (pred == 'le' and sign == -1)
+        for br in f.users(ic.id):
+            if br.op == 'br' and 'cond' in br.d:
+                if strict_lt:
+                    out.append((br, br.d['t']))
+                elif weak_ge:
+                    out.append((br, br.d['f']))
+    return out
+
+
+def rule3_shrink(ctx, w):
+    ctx.doc('C19.3', 'shrinking copy (dr_pi_dag_copy_and_prune_nodes): a copied node\'s child range is rewritten through map[] only '
+            'under the guard begin < end of the source node (a range already empty after contraction at record time has no first and '
+            'last child to look up), the rewritten offsets are differences of map[] entries relative to map[i], and the child of a '
+            'create_task is rewritten the same way')
+    f = ctx.need_fn(w, 'dr_pi_dag_copy_and_prune_nodes')
+    maps = [c for c in f.calls() if c.callee == 'dr_malloc']
+    ctx.ob('C19.3', 'index map and node table allocated', len(maps) == 2, 'map = dr_malloc(..), T_ = dr_malloc(..)', loc=f.loc)
+    n = 0
+    for fld in ('subgraphs_begin_offset', 'subgraphs_end_offset'):
+        for st in f.stores_to(PN + fld):
+            if const_int(st.ops[0]) is not None:
+                continue
+            n += 1
+            av = affine(f, st.ops[0])
+            mp = [k for k in av if k in f.insts and f.insts[k].op == 'load' and f.insts[k].ty == 'i64' and maps and
+                  f.strip(f.ap(f.insts[k].ops[0]).root) == maps[0].id]
+            ctx.ob('C19.3', '%s rewritten as a difference of two map[] entries' % fld, len(mp) == 2 and sorted(av[k] for k in mp) == [-1, 1] and
+                   av.get('', 0) == (1 if fld.endswith('end_offset') else 0) and len([k for k in av if k != '' and av[k] != 0]) == 2,
+                   'new offset = map[child] - map[node] (+1 for the exclusive end)', loc=st.loc, detail=expr_str(f, st.ops[0]))
+            # the source node: the one whose offsets feed the index of the looked-up map entry
+            srcs = set()
+            for k in mp:
+                ia = [x for x in f.ap(f.insts[k].ops[0]).steps if x[0] in ('i', 'p')]
+                if ia and isinstance(ia[-1][1], str):
+                    for t in lib.load_terms(f, affine(f, ia[-1][1]), PN + fld):
+                        srcs.add(f.strip(f.ap(f.insts[t].ops[0]).root))
+            ok = False
+            if len(srcs) == 1:
+                root = list(srcs)[0]
+                ok = any(f.edge_dominates(br.block.id, succ, st) for br, succ in nonempty_range_guards(f, root))
+            ctx.ob('C19.3', '%s rewritten only for a non-empty source range' % fld, ok,
+                   'map[c_begin] and map[c_end - 1] are the first and last child only when c_begin < c_end; for an empty range they are '
+                   'entries of unrelated nodes and the copied section would get a bogus child range', loc=st.loc)
+    ctx.ob('C19.3', 'range rewriting sites', n >= 2, 'begin and end offsets are rewritten', loc=f.loc)
+    ctx.floor('C19.3', 6)
+
+
+ST = 'dr_string_table.'
+
+
+def rule4_strings(ctx, w):
+    ctx.doc('C19.4', 'string table list discipline: dr_string_table_append links the new cell behind the old tail (or as head when '
+            'empty), makes it the tail and increments n on every path; dr_string_table_intern appends exactly when find returned n '
+            'and returns that index')
+    f = ctx.need_fn(w, 'dr_string_table_append')
+    cells = [c for c in f.calls() if c.callee == 'dr_malloc']
+    ctx.ob('C19.4', 'append allocates one cell', len(cells) == 1, 'c = dr_malloc(sizeof(cell))', loc=f.loc)
+    if len(cells) == 1:
+        c = cells[0]
+        t = f.param_named('t') or 'a0'
+        is_c = lambda v: same_value(f, v, c.id)
+        tails = [st for st in f.stores_to(ST + 'tail') if is_c(st.ops[0]) and same_value(f, f.ap(st.ops[1]).root, t)]
+        ctx.ob('C19.4', 'new cell becomes the tail on every path', bool(tails) and f.always_passes(c, tails),
+               'the next append must link behind this cell; a stale tail drops every later string but the last', loc=c.loc)
+        def incr(st):
+            av = affine(f, st.ops[0])
+            own = [k for k in av if k in f.insts and f.insts[k].op == 'load' and f.ap(f.insts[k].ops[0]).key() == f.ap(st.ops[1]).key()]
+            return len(own) == 1 and av[own[0]] == 1 and av.get('', 0) == 1 and len([k for k in av if av[k] != 0]) == 2
+        ns = [st for st in f.stores_to(ST + 'n') if incr(st)]
+        ctx.ob('C19.4', 'n incremented on every path', bool(ns) and f.always_passes(c, ns), 'the index handed out next is n', loc=c.loc)
+        nx = [st for st in f.stores_to('dr_string_table_cell.next') if is_c(f.ap(st.ops[1]).root) and
+              isinstance(st.ops[0], dict) and st.ops[0].get('null')]
+        ctx.ob('C19.4', 'new cell terminates the list', bool(nx), 'c->next = 0', loc=c.loc)
+        heads = f.loads_of(ST + 'head')
+        nt = [x for l in heads for x in lib.null_tests(f, l.id)]
+        ctx.ob('C19.4', 'append distinguishes the empty list', bool(nt), 'if (t->head)', loc=f.loc)
+        link = [st for st in f.stores_to('dr_string_table_cell.next') if is_c(st.ops[0])]
+        sethead = [st for st in f.stores_to(ST + 'head') if is_c(st.ops[0])]
+        okl = bool(link) and all(is_load_of(f, f.ap(st.ops[1]).root, ST + 'tail') for st in link)
+        ctx.ob('C19.4', 'non-empty list: linked behind the old tail', okl and any(f.edge_dominates(br.block.id, nn, st) for br, nn, nl in nt for st in link),
+               't->tail->next = c', loc=link[0].loc if link else f.loc)
+        ctx.ob('C19.4', 'empty list: new cell becomes the head', bool(sethead) and any(f.edge_dominates(br.block.id, nl, st) for br, nn, nl in nt for st in sethead),
+               't->head = c', loc=sethead[0].loc if sethead else f.loc)
+    g = ctx.need_fn(w, 'dr_string_table_intern')
+    finds = call_sites(g, 'dr_string_table_find')
+    apps = call_sites(g, 'dr_string_table_append')
+    ctx.ob('C19.4', 'intern looks up then appends', len(finds) == 1 and len(apps) == 1, 'one find, one append', loc=g.loc)
+    if len(finds) == 1 and len(apps) == 1:
+        okg = False
+        for ic in g.order:
+            if ic.op == 'icmp' and ic.pred in ('eq', 'ne'):
+                d = lib.affine_diff(g, ic.ops[0], ic.ops[1])
+                nl = lib.load_terms(g, d, ST + 'n')
+                if len(d) == 2 and len(nl) == 1 and finds[0].id in d and d[finds[0].id] + d[nl[0]] == 0:
+                    for br in g.users(ic.id):
+                        if br.op == 'br' and 'cond' in br.d:
+                            succ = br.d['t'] if ic.pred == 'eq' else br.d['f']
+                            other = br.d['f'] if ic.pred == 'eq' else br.d['t']
+                            if g.edge_dominates(br.block.id, succ, apps[0]) and not any(
+                                    x is apps[0] for x in g.reachable_from(g.blocks[other].insts[0], include_start=True)):
+                                okg = True
+        ctx.ob('C19.4', 'append exactly when the string is new', okg, 'idx == t->n <=> not found', loc=apps[0].loc)
+        ctx.ob('C19.4', 'intern returns the looked-up index', all(same_value(g, r.ops[0], finds[0].id) for r in g.exits() if r.ops) and bool(g.exits()),
+               'the index of an existing string, or n (the slot the append fills)', loc=g.loc)
+    ctx.floor('C19.4', 10)
+
+
+def rule5_growth(ctx):
+    ctx.doc('C19.5', 'growable arrays of the replay / pruning code (every memcpy in libdr): the bytes copied into a freshly allocated '
+            'array are old-count * E with E the same element size the new array was allocated with, the new capacity covers the '
+            'request, and dr_event_queue_enq ensures capacity n+1 before storing at index n')
+    n = 0
+    for file in sorted(ctx.db['profiler']):
+        m = ctx.ssa(file, area='profiler')
+        for f in m.functions.values():
+            for mc in f.calls():
+                if not (mc.callee or '').startswith('llvm.memcpy') or mc.d.get('inl'):
+                    continue
+                dst = [f.insts[k] for k in f.sources(mc.args[0]) if k in f.insts]
+                if len(dst) != 1 or dst[0].op != 'call' or dst[0].callee not in ('dr_malloc', 'malloc'):
+                    continue        # struct assignment, not an array copy
+                n += 1
+                ctx.fn_analysed.add(f.name)
+                al = affine(f, dst[0].args[0])
+                cp = affine(f, mc.args[2])
+                ea = [abs(v) for k, v in al.items() if k != '' and v != 0]
+                ec = [abs(v) for k, v in cp.items() if k != '' and v != 0]
+                ok = len(ec) == 1 and bool(ea) and cp.get('', 0) == 0
+                E = None
+                if ok:
+                    # element size of the allocation: new array is E * count (+ E * const): every coefficient is a multiple of E
+                    E = ec[0]
+                    ok = all(v % E == 0 for v in ea) and al.get('', 0) % E == 0 and min(ea) in (E, 2 * E)
+                ctx.ob('C19.5', '%s: copy granularity equals allocation granularity' % f.name, ok,
+                       'copying old_count * sizeof(pointer) instead of old_count * sizeof(element) keeps only a prefix of the array',
+                       loc=mc.loc, detail='alloc %s ; copy %s' % (expr_str(f, dst[0].args[0]), expr_str(f, mc.args[2])))
+    ctx.ob('C19.5', 'array growth sites found', n >= 2, 'dr_event_queue_ensure and the pruning stack', loc='src/profiler')
+    c = ctx.ssa('chronological.c', area='profiler')
+    en = ctx.need_fn(c, 'dr_event_queue_ensure')
+    q = 'a0'
+    guard = False
+    for ic in en.order:
+        if ic.op == 'icmp':
+            d = lib.affine_diff(en, ic.ops[0], ic.ops[1])
+            sz = lib.load_terms(en, d, 'dr_event_queue.sz')
+            if len(d) == 2 and len(sz) == 1 and 'a1' in d and d['a1'] + d[sz[0]] == 0:
+                guard = True
+    ctx.ob('C19.5', 'ensure grows when capacity < request', guard, 'if (q->sz < sz)', loc=en.loc)
+    szst = en.stores_to('dr_event_queue.sz')
+    okc = len(szst) == 1
+    if okc:
+        a_ = affine(en, szst[0].ops[0])
+        okc = a_.get('a1', 0) >= 1 and a_.get('', 0) >= 0 and set(a_) <= {'a1', ''}
+        al = [x for x in en.calls() if x.callee == 'dr_malloc']
+        okc = okc and len(al) == 1 and len(lib.affine_diff(en, al[0].args[0], szst[0].ops[0])) >= 0
+        if okc:
+            aa = affine(en, al[0].args[0])
+            E = aa.get('a1', 0) // a_['a1'] if a_['a1'] else 0
+            okc = E > 0 and all(aa.get(k, 0) == E * a_.get(k, 0) for k in set(aa) | set(a_))
+            evst = en.stores_to('dr_event_queue.events')
+            okc = okc and len(evst) == 1 and same_value(en, evst[0].ops[0], al[0].id)
+    ctx.ob('C19.5', 'new capacity covers the request and matches the allocation', okc,
+           'q->sz = new_sz >= sz, q->events = the array allocated with E * new_sz bytes', loc=en.loc)
+    eq = ctx.need_fn(c, 'dr_event_queue_enq')
+    ens = call_sites(eq, 'dr_event_queue_ensure')
+    oke = len(ens) == 1
+    if oke:
+        d = affine(eq, ens[0].args[1])
+        nl = lib.load_terms(eq, d, 'dr_event_queue.n')
+        oke = len(nl) == 1 and d[nl[0]] == 1 and d.get('', 0) >= 1
+        memsts = [x for x in eq.calls() if (x.callee or '').startswith('llvm.memcpy')] + \
+                 [x for x in eq.order if x.op == 'store' and eq.field(x).startswith('dr_event.')]
+        oke = oke and bool(memsts) and all(eq.dominates_f(ens[0], x) for x in memsts)
+    ctx.ob('C19.5', 'enq ensures capacity n + 1 before storing the event', oke, 'dr_event_queue_ensure(q, q->n + 1) dominates events[n] = evt',
+           loc=eq.loc)
+    ctx.floor('C19.5', 6)
 
 
 DUMP = 'src/profiler/dr_dump.c'
@@ -165,6 +371,18 @@ MUTANTS = [
      'edits': [(READ, "  G->E = (dr_pi_dag_edge *)&G->T[G->n];", "  G->E = (dr_pi_dag_edge *)&G->T[G->m];")]},
     {'name': 'header length constant off by one', 'expect': 'C19.1',
      'edits': [('src/profiler/dag_recorder_impl.h', "#define DAG_RECORDER_HEADER_LEN 45", "#define DAG_RECORDER_HEADER_LEN 44")]},
+    {'name': 'shrink rewrites empty child ranges (seed C19/m1)', 'expect': 'C19.3',
+     'edits': [(DUMP, "\tif (c_begin < c_end) {\n\t  if (map[c_begin] >= 0) {", "\tif (c_begin < n) {\n\t  if (map[c_begin] >= 0) {")]},
+    {'name': 'shrink end offset loses the +1', 'expect': 'C19.3',
+     'edits': [(DUMP, "to->subgraphs_end_offset   = map[c_end - 1] - map[i] + 1;", "to->subgraphs_end_offset   = map[c_end - 1] - map[i];")]},
+    {'name': 'string table tail set only for the first cell (seed C19/m2)', 'expect': 'C19.4',
+     'edits': [(DUMP, "    t->head = c;\n  }\n  t->tail = c;\n", "    t->head = t->tail = c;\n  }\n")]},
+    {'name': 'intern appends when found', 'expect': 'C19.4',
+     'edits': [(DUMP, "  if (idx == t->n) {\n    dr_string_table_append(t, s);", "  if (idx != t->n) {\n    dr_string_table_append(t, s);")]},
+    {'name': 'event queue growth copies pointer-sized elements (seed C19/m3)', 'expect': 'C19.5',
+     'edits': [('src/profiler/chronological.c', "memcpy(evts, q->events, sizeof(dr_event) * q->sz);", "memcpy(evts, q->events, sizeof(dr_event *) * q->sz);")]},
+    {'name': 'enq ensures capacity n only', 'expect': 'C19.5',
+     'edits': [('src/profiler/chronological.c', "dr_event_queue_ensure(q, q->n + 1);", "dr_event_queue_ensure(q, q->n);")]},
     {'name': 'edge pointers set before sorting', 'expect': 'C19.2',
      'edits': [(DUMP, "  dr_pi_dag_enum_edges(G_);\t   /* G_->E */\n  dr_pi_dag_sort_edges(G_);\n  dr_pi_dag_set_edge_ptrs(G_);", "  dr_pi_dag_enum_edges(G_);\t   /* G_->E */\n  dr_pi_dag_set_edge_ptrs(G_);\n  dr_pi_dag_sort_edges(G_);")]},
 ]
